@@ -99,9 +99,22 @@ from .analyzer import (
 )
 
 
+def _write_file_atomic(path: str, content: str) -> None:
+    """Write a file so that it is either complete or untouched (temp file + rename)."""
+    tmp_path = path + '.tmp'
+    with open(tmp_path, 'w', encoding='utf-8') as f:
+        f.write(content)
+    os.replace(tmp_path, path)
+
+
 def _migrate_csv_to_rules(csv_file: str, config_dir: str, backup: bool = True) -> bool:
     """
     Migrate merchant_categories.csv to merchants.rules format.
+
+    The steps are ordered so that an interruption or I/O error at any point
+    leaves a budget that still finds its rules: the new file is written
+    atomically, settings.yaml is pointed at it atomically, and only then is
+    the old CSV moved out of the way.
 
     Args:
         csv_file: Path to the CSV file
@@ -122,27 +135,29 @@ def _migrate_csv_to_rules(csv_file: str, config_dir: str, backup: bool = True) -
 
         # Write new file
         new_file = os.path.join(config_dir, 'merchants.rules')
-        with open(new_file, 'w', encoding='utf-8') as f:
-            f.write(content)
+        _write_file_atomic(new_file, content)
         print(f"  {C.GREEN}✓{C.RESET} Created: config/merchants.rules")
         print(f"      Converted {len(csv_rules)} merchant rules to new format")
+
+        # Update settings.yaml to reference new file (before the CSV goes away)
+        settings_path = os.path.join(config_dir, 'settings.yaml')
+        if os.path.exists(settings_path):
+            with open(settings_path, 'r', encoding='utf-8') as f:
+                settings_content = f.read()
+            if 'merchants_file:' not in settings_content:
+                _write_file_atomic(
+                    settings_path,
+                    settings_content
+                    + '\n# Merchant rules file (migrated from CSV)\n'
+                    + 'merchants_file: config/merchants.rules\n'
+                )
+                print(f"  {C.GREEN}✓{C.RESET} Updated: config/settings.yaml")
+                print(f"      Added merchants_file: config/merchants.rules")
 
         # Backup old file
         if backup and os.path.exists(csv_file):
             shutil.move(csv_file, csv_file + '.bak')
             print(f"  {C.GREEN}✓{C.RESET} Backed up: merchant_categories.csv → .bak")
-
-        # Update settings.yaml to reference new file
-        settings_path = os.path.join(config_dir, 'settings.yaml')
-        if os.path.exists(settings_path):
-            with open(settings_path, 'r', encoding='utf-8') as f:
-                content = f.read()
-            if 'merchants_file:' not in content:
-                with open(settings_path, 'a', encoding='utf-8') as f:
-                    f.write('\n# Merchant rules file (migrated from CSV)\n')
-                    f.write('merchants_file: config/merchants.rules\n')
-                print(f"  {C.GREEN}✓{C.RESET} Updated: config/settings.yaml")
-                print(f"      Added merchants_file: config/merchants.rules")
 
         return True
     except Exception as e:
